@@ -13,7 +13,7 @@ LEVEL = "exploration"
 BUDGET = {"quick": {"cases": 8000}, "thorough": {"cases": 120000, "soft_deadline": 1500}}
 RULE = (
     "case = (network n<=6 [7]; final strategy with options: bfs, dfs, block(find_maa, optimize_source_nodes, exact), scc(find_maa), "
-    "minimal-space(skip_ignored), attractor-seed, or any of them stopped by a generated size limit and completed with "
+    "minimal-space(skip_ignored), attractor-seed (bfs/dfs also with level/stack limits), or any of them stopped by a generated size/level/stack limit; in 20% of the cases max_motifs_per_node in {1,2,3,5} (a limit error = no completion) and completed with "
     "skip_remaining(); for bfs/dfs/min/attr a pre-history of 0-5 plain expansion calls with arbitrary limits/start nodes); "
     "precondition = the strategy reported completion (or the diagram was completed by skipping); oracle = minimal_trap_spaces() "
     "equals the brute-force inclusion-minimal trap spaces as a duplicate-free list and node_is_minimal(i) <=> minimal for every "
@@ -21,8 +21,8 @@ RULE = (
 )
 
 FINAL = st.one_of(
-    st.fixed_dictionaries({"op": st.just("bfs")}),
-    st.fixed_dictionaries({"op": st.just("dfs")}),
+    st.fixed_dictionaries({"op": st.just("bfs"), "level": st.sampled_from((None, None, 1, 2, 3))}),
+    st.fixed_dictionaries({"op": st.just("dfs"), "stack": st.sampled_from((None, None, 0, 1, 2, 3))}),
     st.fixed_dictionaries({"op": st.just("block"), "maa": st.booleans(), "optsrc": st.booleans(), "exact": st.booleans()}),
     st.fixed_dictionaries({"op": st.just("scc"), "maa": st.booleans()}),
     st.fixed_dictionaries({"op": st.just("min"), "skip_ignored": st.booleans()}),
@@ -35,7 +35,9 @@ def _case(draw, max_n):
     nj = draw(gen.networks(max_n=max_n, core_weight=2, kinds=("deep", "diamond", "maa", "edge2")))
     n = len(nj["names"])
     fin = dict(draw(FINAL))
-    c = {"net": nj, "final": fin, "pre": [], "size": None}
+    c = {"net": nj, "final": fin, "pre": [], "size": None, "config": {}}
+    if draw(st.integers(0, 4)) == 0:
+        c["config"] = {"max_motifs_per_node": draw(st.sampled_from((1, 2, 3, 5)))}
     if fin["op"] in ("bfs", "dfs", "min", "attr") and draw(st.booleans()):
         c["pre"] = draw(ops.steps(ops.PLAIN_OPS, n, 1, 5))
     if draw(st.integers(0, 3)) == 0:
@@ -48,15 +50,15 @@ def strategy(tier):
 
 
 def describe(case):
-    return f"{bnet_text(case['net'])} | pre: {ops.fmt_steps(case['pre'])} | final: {case['final']} size_limit={case['size']}"
+    return f"{bnet_text(case['net'])} | pre: {ops.fmt_steps(case['pre'])} | final: {case['final']} size_limit={case['size']} config={case.get('config')}"
 
 
 def _final_step(fin, size):
     op = fin["op"]
     if op == "bfs":
-        return {"op": "bfs", "node": None, "level": None, "size": size}
+        return {"op": "bfs", "node": None, "level": fin.get("level"), "size": size}
     if op == "dfs":
-        return {"op": "dfs", "node": None, "stack": None, "size": size}
+        return {"op": "dfs", "node": None, "stack": fin.get("stack"), "size": size}
     if op == "block":
         return {"op": "block", "maa": fin["maa"], "size": size, "optsrc": fin["optsrc"], "exact": fin["exact"]}
     if op == "scc":
@@ -74,20 +76,28 @@ def run_case(case) -> Result:
     fin = case["final"]
     tag = fin["op"] + ("+" + "+".join(k for k, v in fin.items() if v is True) if any(v is True for v in fin.values()) else "")
     try:
-        h = ops.History(net)
+        cfg = case.get("config") or {}
+        h = ops.History(net, cfg)
         for s in case["pre"]:
             out = h.apply(s)
             if out.kind != "ok":
+                if cfg and "Exceeded the maximum amount of stable motifs" in str(out.exc):
+                    res.excluded = "motif_limit_error"
+                    return res
                 res.violate(f"unexpected-RuntimeError:{s['op']}", error=str(out.exc))
                 return res
         out = h.apply(_final_step(fin, case["size"]))
         if out.kind != "ok":
+            if cfg and "Exceeded the maximum amount of stable motifs" in str(out.exc):
+                # the documented resource-limit error: the strategy did not report completion
+                res.excluded = "motif_limit_error"
+                return res
             res.violate(f"unexpected-RuntimeError:{fin['op']}", error=str(out.exc))
             return res
         completed = out.ret is True
         skipped_rest = False
         if not completed:
-            if case["size"] is None:
+            if case["size"] is None and fin.get("level") is None and fin.get("stack") is None:
                 res.violate(f"{tag}:unlimited-strategy-did-not-report-completion", ret=str(out.ret))
                 return res
             out2 = h.apply({"op": "skiprem"})
